@@ -16,7 +16,9 @@ RULE = (
     "Hypothesis-generated pairs 30-60 x 70-130 (tile-constructed, integer radiometry 0..20, sparse masks), local "
     "pipelines (sad/ssd/census/zncc, subpix 1/2/4, optional cbca, wta, vfit/quadratic, median/bilateral with small "
     "odd windows, cross-checking without filling, steps in any legal order), scalar intervals within [-4,4], crop "
-    "rectangles with arbitrary (odd and even) offsets. Non-trivial (crop) = >= 50 cone-interior pixels compared, >= 1 "
+    "rectangles with arbitrary (odd and even) offsets; one case in three is 106-130 px wide with a noisy disparity map "
+    "(a seeded fraction of right pixels replaced), a median filter and a crop whose interior holds the columns where "
+    "the whole image changes 100-pixel processing block. Non-trivial (crop) = >= 50 cone-interior pixels compared, >= 1 "
     "of them flagged and >= 1 with a fractional disparity; (flip) = >= 1 flagged and >= 1 valid pixel and the image is "
     "not vertically symmetric. distinct = distinct canonical payload."
 )
@@ -79,13 +81,27 @@ def crop_cases(draw):
     steps = draw(local_pipeline())
     a = draw(st.integers(-4, 3))
     disp = [a, min(4, a + draw(st.integers(0, 4)))]
+    straddle = draw(st.integers(0, 2)) == 0
+    if straddle:
+        # the internal 100-pixel processing blocks: a wide image with a noisy disparity map, a median filter, and a crop
+        # whose interior contains the columns where the whole image changes block
+        pair = draw(gen.image_pair(min_rows=30, max_rows=44, min_cols=106, max_cols=130, max_val=19, masks=True, tile_max=9,
+                                   texture=True))
+        pair["noise"] = {"seed": draw(st.integers(0, 10 ** 6)), "frac": draw(st.sampled_from([0.15, 0.3, 0.5]))}
+        if not any(c.get("filter_method") == "median" for _, c in steps):
+            i_d = [n for n, _ in steps].index("disparity")
+            steps.insert(draw(st.integers(i_d + 1, len(steps))), ["filter.blk", {"filter_method": "median", "filter_size": draw(st.sampled_from([3, 5]))}])
     rr, cr = radii(steps, disp)
     H, W = pair["H"], pair["W"]
     hmin, wmin = min(H, 2 * rr + 4), min(W, 2 * cr + 6)
     h = draw(st.integers(hmin, H))
-    w = draw(st.integers(wmin, W))
+    if straddle and W >= 100 + cr + 6 and 100 - cr - 3 >= 1:
+        c0 = draw(st.integers(1, 100 - cr - 3))
+        w = draw(st.integers(min(W - c0, 100 + cr + 6 - c0), W - c0))
+    else:
+        w = draw(st.integers(wmin, W))
+        c0 = draw(st.integers(0, W - w))
     r0 = draw(st.integers(0, H - h))
-    c0 = draw(st.integers(0, W - w))
     return {"pair": pair, "pipeline": steps, "disp": disp, "crop": [r0, c0, h, w]}
 
 
@@ -142,6 +158,8 @@ def crop_body(ctx: Ctx, p: dict) -> None:
         classes.append("bilateral")
     if c0 % 2:
         classes.append("odd-col-offset")
+    if p["pair"].get("noise"):
+        classes.append("crop-straddles-100px-block")
     ctx.case(p, nontrivial=bool(n_cmp >= 50 and n_flag and n_frac), classes=classes)
 
 
